@@ -295,19 +295,15 @@ Definition valid_reply (dl : Z) (b a : list Z) : Prop :=
     dl + n + ASUFFIX_SIZE + ADDR_SIZE <= len b /\
     a = take ADDR_SIZE (drop (dl + n + ASUFFIX_SIZE) b).
 
-(* RFC 1035 label walk over a name made of ordinary labels (length 1..63, bytes neither 0 nor >= 192),
-   ended by a 0 byte or a compression pointer: the length it occupies *)
-Fixpoint label_walk (fuel : nat) (p : list Z) : option Z :=
-  match fuel with
-  | O => None
-  | S k => match p with
-           | [] => None
-           | c :: r => if c =? 0 then Some 1 else if 192 <=? c then Some 2
-                       else if 64 <=? c then None
-                       else match label_walk k (drop c r) with Some n => Some (n + c + 1) | None => None end
-           end
-  end.
+(* RFC 1035: a name is a sequence of labels (a length byte 1..63 followed by that many bytes) ended by a 0 byte
+   or by a two-byte compression pointer.  rfc_name p n: such a name, whose label bytes are ordinary characters
+   (neither 0 nor >= 192), sits at the head of p and occupies n bytes. *)
 Definition plain_byte (c : Z) : Prop := 0 < c < 192.
+Inductive rfc_name : list Z -> Z -> Prop :=
+  | rfc_end r : rfc_name (0 :: r) 1
+  | rfc_ptr c r : 192 <= c -> rfc_name (c :: r) 2
+  | rfc_label c lab r n : 0 < c < 64 -> len lab = c -> Forall plain_byte lab -> rfc_name r n ->
+                          rfc_name (c :: lab ++ r) (n + c + 1).
 
 (* ---------- measures used by the completion theorems ---------- *)
 Definition b2z (b : bool) : Z := if b then 1 else 0.
